@@ -250,9 +250,9 @@ def build_inputs(ctx):
     out += targeted(ctx)
     sutra = dict(configs.example_texts(ctx, slow=True)).get('SUTRAExample1.txt')
     if sutra:   # the SUTRA writer (its own PrintOutputs): the shipped example and variants through every guard of that writer
-        variants = [('', [])] if ctx.quick else [('', []), ('-fcr', [('Economic Model', 1), ('Fixed Charge Rate', 0.07)]),
+        variants = [('', [])] if ctx.quick else [('-fcr', [('Economic Model', 1), ('Fixed Charge Rate', 0.07)]),
                                                  ('-bicycle', [('Economic Model', 3), ('Inflation Rate During Construction', 0.04)]),
-                                                 ('-discount9', [('Discount Rate', 0.09), ('Plant Lifetime', 25)])]
+                                                 ('-discount9', [('Discount Rate', 0.09), ('Well Drilling Cost Correlation', 3)])]
         variants.append(('-injcost', [('Injection Well Drilling and Completion Capital Cost Adjustment Factor', 1.35), ('Economic Model', 1 if ctx.quick else 2)]))
         out += [(f'SUTRAExample1{s}', sutra + '\n' + runner.params_to_text(pairs)) for s, pairs in variants]
     ex1 = dict(configs.example_texts(ctx)).get('example1.txt', '')
@@ -550,9 +550,10 @@ def report_correspondence(ctx, spec, inputs, proofs_ok, batch=160):
         if any('TOUGH2_SIMULATOR' in s and k == 'if' for k, s in conds):
             return 'needs the external TOUGH2 executable (not available offline)'
         return 'not reached'
-    unex = [(n['line'], gen.label_of(n)[:40], why(c)) for i, (c, n) in sorted(nodes.items()) if i not in executed]
+    wr = lambda i: 'main' if i < 10000 else 'addons' if i < 20000 else 'sdac' if i < 30000 else 'sutra'
+    unex = [(f'{wr(i)}:{n["line"]}', gen.label_of(n)[:40], why(c)) for i, (c, n) in sorted(nodes.items()) if i not in executed]
     ctx.count('spec-line-coverage', exercised=sum(1 for i in nodes if i in executed), total=len(nodes),
-              runs_per_line={f'{"main" if i < 10000 else "addons" if i < 20000 else "sdac"}:{n["line"]}:{gen.label_of(n)[:32]}': per_line[i]
+              runs_per_line={f'{wr(i)}:{n["line"]}:{gen.label_of(n)[:32]}': per_line[i]
                              for i, (c, n) in sorted(nodes.items())})
     if unex:
         ctx.note(f'specified lines no run exercised ({len(unex)} of {len(nodes)}): {unex}')
